@@ -1278,18 +1278,22 @@ func (s *expSession) seqCheck() {
 	marks := s.seqMarks
 	mi := 0
 	// "failed attempts are outside this statement": a data SendSet that returned an error may or may
-	// not have moved the counter by its record count. From the first message at or after such a call
-	// either base is accepted (once); after that the counter must again advance exactly.
+	// not have moved the counter by its record count. From the failed call on (in wire order; by
+	// time when the wire is a reassembled stream) the sequence may jump by that count, once, at any
+	// later message - messages of another sender that were stamped before the failed call took the
+	// send lock still carry the old base. After the jump the counter must again advance exactly.
 	type failed struct {
+		w0 int
 		t0 time.Time
 		n  uint32
 	}
 	var pend []failed
 	for _, c := range s.calls {
 		if c.Err != nil && c.Kind == "data" && len(c.Records) > 0 {
-			pend = append(pend, failed{c.T0, uint32(len(c.Records))})
+			pend = append(pend, failed{c.W0, c.T0, uint32(len(c.Records))})
 		}
 	}
+	byTime := s.window > 0 && s.proto == "tcp"
 	for i, w := range pw {
 		for mi < len(marks) && marks[mi].wireIdx <= i {
 			cur = marks[mi].val
@@ -1298,41 +1302,40 @@ func (s *expSession) seqCheck() {
 		if w.Err != nil || len(w.Msg.Sets) != 1 {
 			continue
 		}
-		if len(pend) > 0 && !w.At.Before(pend[0].t0) {
-			own := uint32(0)
-			if w.Msg.Sets[0].ID != ipfixref.TemplateSetID && w.Call >= 0 {
-				own = uint32(len(s.calls[w.Call].Records))
-			}
-			sum := uint32(0)
-			active := 0
-			for k := 0; k < len(pend) && !w.At.Before(pend[k].t0); k++ {
-				active++
-				sum += pend[k].n
-				if w.Msg.Header.Sequence-own == cur+sum {
-					cur += sum
-					s.env.Count("probe.sequence_rebased_after_failed_attempt", 1)
-					break
-				}
-			}
-			pend = pend[active:] // accepted once: at the first message after the failed attempt(s)
-		}
-		set := w.Msg.Sets[0]
-		if set.ID != ipfixref.TemplateSetID {
-			// number of records: from the handing call when known, else from the reference decode
-			n := uint32(0)
+		// records carried by this message: from the handing call when known, else (second sender)
+		// counted with the reference decoder under the template it announced
+		own := uint32(0)
+		if w.Msg.Sets[0].ID != ipfixref.TemplateSetID {
 			if w.Call >= 0 {
-				n = uint32(len(s.calls[w.Call].Records))
+				own = uint32(len(s.calls[w.Call].Records))
 			} else {
-				// a second sender: count with the reference decoder under the template it announced
 				for _, t := range s.tmpls {
-					if t.ID == set.ID {
-						if recs, _, err := ipfixref.DecodeRecords(set.Body, fieldsOf(t.Specs)); err == nil {
-							n = uint32(len(recs))
+					if t.ID == w.Msg.Sets[0].ID {
+						if recs, _, err := ipfixref.DecodeRecords(w.Msg.Sets[0].Body, fieldsOf(t.Specs)); err == nil {
+							own = uint32(len(recs))
 						}
 					}
 				}
 			}
-			cur += n
+		}
+		if len(pend) > 0 {
+			sum := uint32(0)
+			for k := 0; k < len(pend); k++ {
+				if (byTime && w.At.Before(pend[k].t0)) || (!byTime && i < pend[k].w0) {
+					break
+				}
+				sum += pend[k].n
+				if w.Msg.Header.Sequence-own == cur+sum && sum != 0 {
+					cur += sum
+					pend = pend[k+1:]
+					s.env.Count("probe.sequence_rebased_after_failed_attempt", 1)
+					break
+				}
+			}
+		}
+		set := w.Msg.Sets[0]
+		if set.ID != ipfixref.TemplateSetID {
+			cur += own
 		}
 		if w.Msg.Header.Sequence != cur {
 			kind := "data"
